@@ -50,25 +50,25 @@ theorem inj_of_nodup_map {α β : Type} {f : α → β} {l : List α} (nd : (l.m
 
 /-- Ties of `less` among the decorated elements of a list with pairwise distinct version
 strings are identical elements. -/
-theorem less_tri_eq {s : Semver.System} {l : List RVersion} (H : CmpLawful s l)
+theorem less_tri_eq {s : Semver.System} {l : List RVersion} (H : OrderLawful s l)
     (nd : (l.map (fun v => v.key.version)).Nodup) {a b : DV}
     (ha : a ∈ l.map (dec s)) (hb : b ∈ l.map (dec s))
     (h1 : less a b = false) (h2 : less b a = false) : a = b := by
-  have e := less_tri H (dv_eq_dec ha) (dv_eq_dec hb) h1 h2
+  have e := H.tri a b (dv_eq_dec ha) (dv_eq_dec hb) h1 h2
   obtain ⟨va, hva, rfl⟩ := List.mem_map.mp ha
   obtain ⟨vb, hvb, rfl⟩ := List.mem_map.mp hb
   have : va = vb := inj_of_nodup_map nd hva hvb e
   rw [this]
 
-/-- **Order-insensitivity of the sort**: with a lawful ecosystem comparison and pairwise
+/-- **Order-insensitivity of the sort**: with a lawful order (`OrderLawful`) and pairwise
 distinct version strings, `sortBase` depends only on the multiset of records. -/
-theorem sortBase_perm {s : Semver.System} {l₁ l₂ : List RVersion} (H : CmpLawful s l₁)
+theorem sortBase_perm {s : Semver.System} {l₁ l₂ : List RVersion} (H : OrderLawful s l₁)
     (nd : (l₁.map (fun v => v.key.version)).Nodup) (p : l₁ ~ l₂) : sortBase s l₁ = sortBase s l₂ := by
   unfold sortBase
   rw [comparable_perm s p]
   split
   · congr 1
-    exact goSort_eq_of_perm (less_strictWeakOn H) (fun y hy => dv_eq_dec hy)
+    exact goSort_eq_of_perm H.weak (fun y hy => dv_eq_dec hy)
       (fun a b ha hb => less_tri_eq H nd ha hb) (p.map _)
   · rfl
 
@@ -83,10 +83,10 @@ theorem sortBase_perm_input {s : Semver.System} {l : List RVersion} {ds : List D
     ds ~ l.map (dec s) := by
   rw [sortBase_ok h]; exact goSort_perm _
 
-theorem sortBase_sorted {s : Semver.System} {l : List RVersion} (H : CmpLawful s l) {ds : List DV}
+theorem sortBase_sorted {s : Semver.System} {l : List RVersion} (H : OrderLawful s l) {ds : List DV}
     (h : sortBase s l = .ok ds) : Sorted less ds := by
   rw [sortBase_ok h]
-  exact goSort_sorted (less_strictWeakOn H) (fun y hy => dv_eq_dec hy)
+  exact goSort_sorted H.weak (fun y hy => dv_eq_dec hy)
 
 theorem mem_sortBase {s : Semver.System} {l : List RVersion} {ds : List DV} (h : sortBase s l = .ok ds)
     {d : DV} (hd : d ∈ ds) : InList s l d :=
